@@ -93,7 +93,9 @@ pub fn run(ctx: &Ctx) -> Outcome {
         let key = &keys(seed, cfg.key_len)[0];
         let lbfs = 3 * bs + 2;
         // long input: a single piece can exceed twice the parallel width and fixed thresholds of 8 / 16 blocks
-        let llong = (long_blocks(par_of(cfg)) * bs + bs / 2 + 1).max(if bs <= 16 { 66 * bs + 1 } else { 0 });
+        // (bs <= 16: also pieces past 128, 256 and -- thorough -- 1024 blocks, i.e. past 4 KiB / 16 KiB)
+        let vlong: Vec<usize> = if bs <= 16 { tier.pick(vec![66, 130, 258], vec![66, 130, 258, 1026]) } else { vec![] };
+        let llong = (long_blocks(par_of(cfg)) * bs + bs / 2 + 1).max(vlong.last().map(|n| n * bs + 1).unwrap_or(0));
         let llong_sched = long_blocks(par_of(cfg)) * bs + bs / 2 + 1;
         let pre = dirty(llong + 2 * bs + 2);
         for (fam, dir, fe) in byte_frontends(cfg).into_iter().enumerate().filter(|(i, _)| Some(*i) == *which).map(|(_, f)| f) {
@@ -171,9 +173,9 @@ pub fn run(ctx: &Ctx) -> Outcome {
                         }
                         rep.count("long_input_schedules", n_sched);
                     }
-                    // (2c) very long pieces (past 32 and 64 blocks) for small blocks: [a, long, c]
-                    if bs <= 16 {
-                        let l = 66 * bs + 1;
+                    // (2c) very long pieces (past 32, 64, 128, 256 blocks) for small blocks: [a, long, c]
+                    for &nb in &vlong {
+                        let l = nb * bs + 1;
                         if l <= data.len() {
                             for a in [0usize, 1, bs / 2, bs - 1] {
                                 for c in [0usize, 1, bs - 1, 32 * bs + 1] {
